@@ -2,7 +2,7 @@ import os
 import socket
 import struct
 from typing import Optional
-from urllib.parse import unquote, urlparse
+from urllib.parse import unquote, urlparse, urlsplit
 from ._exceptions import WebSocketProxyException
 
 """
@@ -45,7 +45,7 @@ def parse_url(url: str) -> tuple:
         # no authority behind the scheme (also: another URL nested behind it)
         raise ValueError("hostname is invalid")
 
-    parsed = urlparse(url, scheme="http")
+    parsed = urlsplit(url, scheme="http")
     if parsed.hostname:
         hostname = parsed.hostname
     else:
@@ -69,9 +69,6 @@ def parse_url(url: str) -> tuple:
         resource = parsed.path
     else:
         resource = "/"
-
-    if parsed.params:
-        resource += f";{parsed.params}"
 
     if parsed.query:
         resource += f"?{parsed.query}"
